@@ -17,7 +17,7 @@ impl SubCheck for Sc {
         "sequential_consistency_vs_brute_force"
     }
     fn cases(&self, tier: Tier) -> u32 {
-        tier.pick(40000, 800000)
+        tier.pick(250000, 3000000)
     }
     fn strategy(&self, tier: Tier) -> BoxedStrategy<HistCase> {
         hist_strategy(tier.pick(18, 22))
@@ -62,7 +62,7 @@ impl SubCheck for LinImpliesSc {
         "linearizable_implies_sequentially_consistent"
     }
     fn cases(&self, tier: Tier) -> u32 {
-        tier.pick(30000, 600000)
+        tier.pick(200000, 2000000)
     }
     fn strategy(&self, _tier: Tier) -> BoxedStrategy<HistCase> {
         hist_strategy(18)
@@ -135,7 +135,7 @@ impl SubCheck for CloneDiscipline {
         "testers_are_plain_values"
     }
     fn cases(&self, tier: Tier) -> u32 {
-        tier.pick(20000, 400000)
+        tier.pick(150000, 1500000)
     }
     fn strategy(&self, _tier: Tier) -> BoxedStrategy<CloneCase> {
         let step = || (any::<u8>(), any::<u8>(), any::<u8>(), any::<u8>()).prop_map(|(t, a, b, c)| Step { t, a, b, c });
